@@ -680,4 +680,3 @@ func shortPred(p string) string {
 	p = strings.TrimSuffix(p, "$bound)")
 	return p
 }
-
